@@ -438,6 +438,7 @@ type world struct {
 	pool       map[string][]model.Item // table -> keys of interest
 	prop       string
 	steps      int64
+	diverged   bool // a speculative request was accepted; only blind steps from here on
 }
 
 func newWorld(prop string, cfg worldCfg) *world {
@@ -466,6 +467,11 @@ func (w *world) do(op model.Op) (model.Result, int, *failure) {
 	if op.Blind {
 		return w.doBlind(op)
 	}
+	if w.diverged {
+		// the implementation accepted a request DynamoDB rejects: the model
+		// cannot follow this world any further
+		return model.Result{}, stepGuarded, nil
+	}
 	if ids := guardOp(op, w.m, w.cfg.V2); len(ids) > 0 {
 		for _, id := range ids {
 			stats.For(w.prop).Exclude(id)
@@ -474,7 +480,7 @@ func (w *world) do(op model.Op) (model.Result, int, *failure) {
 	}
 	next := w.m.Clone()
 	want := next.Apply(op)
-	if want.Weak || want.Spec && !w.cfg.Speculate {
+	if want.Weak || want.Spec && !w.cfg.Speculate && !op.TrySpec {
 		stats.For(w.prop).WeakCase()
 		return want, stepWeak, nil
 	}
@@ -501,6 +507,7 @@ func (w *world) do(op model.Op) (model.Result, int, *failure) {
 		}
 		if accepted {
 			stats.For(w.prop).Class("speculative-request-accepted")
+			w.diverged = true
 			return want, stepDiverged, nil
 		}
 		stats.For(w.prop).Class("speculative-request-rejected")
@@ -585,6 +592,9 @@ func (w *world) drawCheckPeriod(rt *rapid.T) {
 
 // check compares the full observable state of every driver with the model.
 func (w *world) check() *failure {
+	if w.diverged {
+		return nil
+	}
 	for _, d := range w.ds {
 		names := d.TableNames()
 		if !sameStrings(names, w.m.TableNames()) {
